@@ -1,5 +1,6 @@
 SPECIFICATION TraceSpec
 CONSTANTS
+  MaxFailed = 1000000
   MaxPrev = 0
   MaxDecodes = 1000000
   Canonical = TRUE
